@@ -257,6 +257,15 @@ class Verifier:
             return
         self.stats["containers_walked:layout"] += 1
         boxes: List[Any] = []
+        kind = "page" if _tn(c) == "LTPage" else "figure"
+        if c is self.inv.container:
+            before = self.inv.order
+        else:
+            p = self.inv.pre.get(id(c))
+            before = (p.children if p is not None and p.children is not None else [])
+        own_glyphs = sum(1 for o in before if isinstance(o, LTChar))
+        bare = 0
+        loose = 0
         for o in list(c._objs):
             if isinstance(o, LTTextBox):
                 self.mark_new(o, ctx)
@@ -265,6 +274,7 @@ class Verifier:
             elif isinstance(o, LTTextLine):
                 self.mark_new(o, ctx)
                 self.stats["lines_outside_boxes"] += 1
+                loose += 1
                 self.line(o, ctx + "/loose-line")
             elif isinstance(o, (LTAnno, LTTextGroup)):
                 self.keep.append(o)
@@ -272,12 +282,24 @@ class Verifier:
             else:
                 self.mark_old(o, ctx)
                 if isinstance(o, LTChar):
-                    self.stats["glyphs_left_outside_lines"] += 1
+                    bare += 1
                 elif isinstance(o, LTLayoutContainer):
                     # LAParams.all_texts: "If layout analysis should be performed on text in figures."
                     self.layout(o, bool(self.la.all_texts), ctx + "/" + _tn(o))
                 elif isinstance(o, LTContainer):
                     self.pristine(o, ctx + "/" + _tn(o))
+        # an analysed container (the page; a figure when all_texts is set) holds its glyphs in text lines, each
+        # ending in a line break: LTPage documents its children as text boxes, figures, images and shapes
+        if bare:
+            self.fail("structure:glyph_outside_line:" + kind,
+                      "%s: %d of %d glyph(s) of this analysed %s are still direct children (no line, no line break) "
+                      "after analysis with all_texts=%r, boxes_flow=%r" % (ctx, bare, own_glyphs, _tn(c), self.la.all_texts, self.la.boxes_flow))
+        elif own_glyphs:
+            self.stats["containers_with_all_glyphs_in_lines:" + kind] += 1
+            if not boxes and loose:
+                self.stats["containers_all_lines_blank:" + kind] += 1      # nothing but blank / zero-area lines
+        elif self.la.all_texts and any(isinstance(o, LTLayoutContainer) and self._has_glyphs(o) for o in before):
+            self.stats["glyphless_container_with_text_figures:" + kind] += 1    # its text lives in nested figures only
         # clause 5: numbering in output order
         idx = [b.index for b in boxes]
         if idx != list(range(len(boxes))):
@@ -295,6 +317,16 @@ class Verifier:
         elif self.la.boxes_flow is not None and boxes:
             # boxes_flow given: the boxes are ordered through the hierarchical grouping, kept in .groups
             self.fail("groups:missing", "%s: %d boxes but groups is None (boxes_flow=%r)" % (ctx, len(boxes), self.la.boxes_flow))
+
+    def _has_glyphs(self, c: Any) -> bool:
+        """Did container c hold a glyph (at any depth) before the analysis?"""
+        from pdfminer.layout import LTChar, LTContainer
+
+        p = self.inv.pre.get(id(c))
+        for o in (p.children if p is not None and p.children is not None else []):
+            if isinstance(o, LTChar) or (isinstance(o, LTContainer) and self._has_glyphs(o)):
+                return True
+        return False
 
     # ------------------------------------------------------------------
     def line(self, ln: Any, ctx: str) -> Optional[str]:
